@@ -121,7 +121,7 @@ class compile_select:
     assumes = ['ATTRS_PRESENT', 'the statement has an explicit target list (the wildcard form of _compile_targets has its own contract)',
                'clause compilers as summarised from their own contracts (c05.py); _compile / _compile_from / is_aggregate assumed']
     raises = {'CompilationError': None}
-    timeout = 4000
+    timeout = 8000
     note = ('that every target after the written ones is hidden is proved where those targets are created (_compile_group_by / _compile_order_by: '
             'added-targets-are-hidden); its restatement over the concatenated list did not discharge within the budget here and is not claimed; '
             'the covering of the non-aggregate targets by the group keys (set comparison) is not stated either: bounded evidence in h02 / h05')
